@@ -97,9 +97,30 @@ def run_case(case):
             defaults.append([n, pool.enc(dv)])
         except Exception:
             defaults.append([n, ["POther", 99]])
+    # attributes READ before the history starts: the read stores the (unvalidated) default in __dict__
+    for n in case.get("pre", []):
+        try:
+            getattr(obj, PYNAME[n])
+        except Exception:      # a read that raises stores nothing: law clause 8 judges the dictionary
+            pass
+    init = snapshot(pool, obj, nids)
     steps, orc, rem = [], [], []
     for how, kws in case["ops"]:
         vals = [(n, pool.val(vj)) for n, vj in kws]
+        if case.get("pre") and how != "Ctor":
+            # "assign the very object just read": when the value to assign is described like the object that is stored
+            # under that name, assign that object itself (same identity)
+            same = []
+            for (n, v), (_, vj) in zip(vals, kws):
+                cur = obj.__dict__.get(PYNAME[n], same)
+                try:
+                    # (not a NaN: containment tests go by identity first, which the value model does not have)
+                    if cur is not same and type(cur) is type(v) and pool.enc(cur) == vj and "FNaN" not in repr(vj):
+                        v = cur
+                except Exception:
+                    pass
+                same.append((n, v))
+            vals = same
         for (n, v) in vals:
             o2, r2 = pvlib.oracles(pool, descs[n], v)
             orc += [x for x in o2 if x not in orc]
@@ -135,7 +156,7 @@ def run_case(case):
             mut = True
         steps.append({"out": out, "names": names, "after": snapshot(pool, obj, nids) + readable(pool, host, obj, case),
                       "venc": venc, "mut": mut})
-    return {"steps": steps, "orc": orc, "re": rem, "defaults": defaults}
+    return {"steps": steps, "orc": orc, "re": rem, "defaults": defaults, "init": init}
 
 
 def main():
